@@ -466,6 +466,34 @@ Definition own (h : heap) (cl : call) : list addr :=
   | _ => []
   end.
 
+(* ---------------------------------------------------------------- inputs outside the known sharing classes *)
+Definition ops_at (h : heap) (c : addr) : list addr := match get h c with OCirc ops _ => ops | _ => [] end.
+Definition valid (h : heap) (a : addr) : bool := a <? length h.
+(* an instruction object that carries no basis (not a QPD placeholder) *)
+Definition op_nobasis (o : obj) : bool := match o with OOp _ _ _ (Some _) => false | _ => true end.
+(* an instruction that cut_wires re-materialises (native) or replaces (CutWire marker) *)
+Definition op_wireclean (o : obj) : bool := match o with OOp KNative _ _ _ | OOp KCutWire _ _ _ => true | _ => false end.
+Definition circ_clean (h : heap) (c : addr) : bool :=
+  valid h c && forallb (fun a => valid h a && op_nobasis (get h a)) (ops_at h c).
+Definition wires_clean (h : heap) (c : addr) : bool :=
+  valid h c && forallb (fun a => valid h a && op_wireclean (get h a)) (ops_at h c).
+(* `clean h cl`: the arguments of the call are outside the classes F6 / F19 (no pre-placed placeholder in the argument
+   circuit), F10 (cut_wires: only native instructions and CutWire markers) and - conservatively - F11 (decompose /
+   generate: no placeholder at all; the case "placeholders whose selected maps hold only singleton gates" is NOT covered) *)
+Definition clean (h : heap) (cl : call) : bool :=
+  match cl with
+  | CPcq _ c _ | CCutGates _ c _ | CPartition c _ _ _ _ | CFindCuts c _ _ | CDqi _ c _ _ | CSeparate c _ _ => circ_clean h c
+  | CCutWires c => wires_clean h c
+  | CGenerate circs _ _ _ _ => forallb (circ_clean h) circs
+  | CExpand _ _ _ | CReconstruct _ _ _ => true
+  end.
+
+(* destructive edits of a result: arbitrary overwrites of existing objects; well-formed heap: no dangling reference *)
+Definition apply_edits (h : heap) (es : list (addr * obj)) : heap :=
+  fold_left (fun h1 e => upd h1 (fst e) (snd e)) es h.
+Definition wf (h : heap) : Prop := forall a, a < length h -> forall b, In b (refs (get h a)) -> b < length h.
+Definition wfb (h : heap) : bool := forallb (fun o => forallb (fun b => b <? length h) (refs o)) h.
+
 (* what the property allows a result to share with the arguments *)
 Definition documented_shared (cl : call) : list addr := [].
 
